@@ -70,6 +70,20 @@ def build_ops(rng, thorough):
     for _ in range(n):
         text, lay, banks, items = C06.gen_program(rng)
         ops.append(fw.asm_op([("main.asm", text)]))
+    # instructions matched by several rules whose index prefixes have different lengths: ambiguous or failing in every
+    # form, so that the diagnostics list the candidates (their order must not depend on hash-map iteration)
+    for _ in range(n // 4 + 10):
+        conds = rng.sample(["z", "nz", "c", "nc", "eq", "ne", "mi"], rng.randrange(2, 5))
+        mn = rng.choice(["j", "b", "call"])
+        rules = ["    %s{c: cond} {addr: u8} => 0x4 @ c`4 @ addr" % mn]
+        for i, c in enumerate(conds):
+            if rng.random() < 0.7:
+                rules.append("    %s%s {addr: u8} => 0x%02x @ addr" % (mn, c, 0x80 + i))
+        rng.shuffle(rules)
+        prog = "#subruledef cond\n{\n" + "".join("    %s => 0x%x\n" % (c, i) for i, c in enumerate(conds)) + "}\n#ruledef\n{\n    nop => 0x00\n" + "\n".join(rules) + "\n}\nstart:\n    nop\n"
+        for _ in range(rng.randrange(1, 4)):
+            prog += "    %s%s %s\n" % (mn, rng.choice(conds), rng.choice(["start", "0x123", "1", "-1"]))
+        ops.append(fw.asm_op([("main.asm", prog)]))
     for _ in range(40):
         k = rng.randrange(2, 6)
         names = rng.sample(["foo", "bar", "baz", "radix", "width", "endian", "zz", "a", "b"], k)
